@@ -33,7 +33,7 @@ impl C07 {
         C07 {
             ledger: Ledger::default(),
             rng: StdRng::seed_from_u64(seed ^ 0xC07),
-            schedule_every: 120,
+            schedule_every: 50,
         }
     }
 }
@@ -74,7 +74,7 @@ impl C07 {
         // a user with open positions and at least one live farm on one of its LP tokens
         let mut cands: Vec<Addr> = vec![];
         for p in s.fpost.positions.values() {
-            if p.open && s.fpost.farms.values().any(|f| f.lp_denom == p.lp_asset.denom && f.preliminary_end_epoch > cur) {
+            if p.open && s.fpost.farms.values().any(|f| f.lp_denom == p.lp_asset.denom && f.preliminary_end_epoch > cur + 1 && f.start_epoch <= cur + 2 && !f.emission_rate.is_zero()) {
                 cands.push(p.receiver.clone());
             }
         }
@@ -186,7 +186,11 @@ impl C07 {
         }
         let abs = hash_of(&(epochs, tail.len(), totals[0].len(), lps.len().min(3)));
         if totals[0] == totals[1] && totals[1] == totals[2] && others_due[0] == others_due[1] && others_due[1] == others_due[2] {
-            rep.held("schedule_independence", abs, || {
+            if totals[0].is_empty() {
+                rep.count("schedule_independence", "nothing_paid_under_any_schedule");
+                return;
+            }
+            rep.held_rich("schedule_independence", abs, || {
                 json!({"user": w.name_of(user.as_str()), "epochs": format!("{cur}..{end_epoch}"), "other_users_operations": tail.iter().filter(|t| matches!(t, T::Other(_))).count(),
                        "claims_executed": claims, "total_paid_each_schedule": totals[0].iter().map(|(d, a)| format!("{a}{d}")).collect::<Vec<_>>()})
             });
@@ -220,7 +224,9 @@ impl Monitor for C07 {
                     (Ok(q), true) => {
                         let mut qq = q.clone();
                         qq.retain(|_, v| *v > 0);
-                        if qq == paid {
+                        if qq == paid && !paid.is_empty() {
+                            rep.held_rich("query_equals_claim", abs, || json!({"user": w.name_of(&user), "until_epoch": until_epoch, "rewards_query": q.iter().map(|(d, a)| format!("{a}{d}")).collect::<Vec<_>>(), "claim_paid": "identical"}));
+                        } else if qq == paid {
                             rep.held("query_equals_claim", abs, || json!({"user": w.name_of(&user), "until_epoch": until_epoch, "rewards_query": q.iter().map(|(d, a)| format!("{a}{d}")).collect::<Vec<_>>(), "claim_paid": "identical"}));
                         } else {
                             rep.failed("query_equals_claim", None, format!("Rewards query said {:?}, the immediate claim paid {:?}", q, paid), witness(json!({"user": w.name_of(&user), "query": q, "paid": paid})));
@@ -261,7 +267,7 @@ impl Monitor for C07 {
                     let abs = hash_of(&(span.min(20), r.by_total_floor.len(), last.is_some(), until_epoch.is_some()));
                     if errs.is_empty() {
                         if !r.by_total_floor.is_empty() {
-                            rep.held("share_exact", abs, || json!({"user": w.name_of(&user), "epochs": format!("({:?}, {until}]", last), "paid": paid.iter().map(|(d, a)| format!("{a}{d}")).collect::<Vec<_>>(), "farm_epochs": r.farm_epochs}));
+                            rep.held_rich("share_exact", abs, || json!({"user": w.name_of(&user), "epochs": format!("({:?}, {until}]", last), "paid": paid.iter().map(|(d, a)| format!("{a}{d}")).collect::<Vec<_>>(), "farm_epochs": r.farm_epochs}));
                         } else {
                             rep.count("share_exact", "nothing_due_nothing_paid");
                         }
